@@ -176,7 +176,11 @@ pub fn gen_random_bytes(seed: u64, index: u64) -> Vec<u8> {
 
 fn rand_name(r: &mut Rng) -> Vec<u8> {
     let simple: [&[u8]; 6] = [b"f", b"dir/f.c", b"a/b/c/d.txt", b"file.with.dots", b"x", b"Makefile"];
-    match r.below(10) {
+    match r.below(14) {
+        10 => b"\"x\".txt".to_vec(),
+        11 => b"mid\"quote".to_vec(),
+        12 => b"\"".to_vec(),
+        13 => b"\"a\"\"b\"".to_vec(),
         0 => b"name with space".to_vec(),
         1 => b"tab\there".to_vec(),
         2 => b"quote\"and\\backslash".to_vec(),
